@@ -761,6 +761,39 @@ func c10CheckTx(p *Prog, c *Check) {
 	}
 	c.Floor(rule+".AddTx", m, 1)
 	_ = types.Typ
+	// the member set is configured only by SetMembers: nothing else writes the field, and no function
+	// overwrites a whole CheckTxState in place (a per-block Reset must leave the members alone)
+	cts, err := p.Named("app.CheckTxState")
+	if !c.Must(err) {
+		return
+	}
+	nm := 0
+	for _, w := range p.fieldWrites(cts, "Members") {
+		nm++
+		ok := fnName(origin(w.Fn)) == "SetMembers"
+		c.Result(ok, rule+".members", "Members-write@"+shortFn(w.Fn), p.siteOf(w.Instr), shortFn(w.Fn), "write of CheckTxState.Members", "the set of senders CheckTx admits is modified outside SetMembers", "only SetMembers")
+	}
+	c.Floor(rule+".members", nm, 1)
+	for _, fn := range p.Funcs {
+		if isTestScaffold(fn) {
+			continue
+		}
+		for _, b := range fn.Blocks {
+			for _, in := range b.Instrs {
+				st, ok := in.(*ssa.Store)
+				if !ok || baseAlloc(st.Addr) != nil {
+					continue
+				}
+				if _, isFA := st.Addr.(*ssa.FieldAddr); isFA {
+					continue
+				}
+				if !types.Identical(deref(st.Addr.Type()), cts) {
+					continue
+				}
+				c.Fail(rule+".members", "whole-state-store@"+shortFn(fn), p.siteOf(st), shortFn(fn), "*CheckTxState = …", "a whole CheckTxState is overwritten in place: the configured member set is lost (afterwards CheckTx admits any sender)")
+			}
+		}
+	}
 }
 
 // membersOnEveryPath: cutting the edges that establish len(Members) <= 0 or Members[sender] == true
